@@ -1046,6 +1046,14 @@ func chainTo(v ssa.Value, pred func(ssa.Value) bool) bool {
 				v = x.X
 				continue
 			}
+			if al, isAl := x.X.(*ssa.Alloc); isAl {
+				// a local captured by a closure lives in a cell: follow it when it is assigned once
+				if sts := storesToCell(al); len(sts) == 1 {
+					v = sts[0].Val
+					continue
+				}
+				return false
+			}
 			fa, ok := x.X.(*ssa.FieldAddr)
 			if !ok {
 				return false
